@@ -222,6 +222,10 @@ func CheckPassParam(ctx *Task, expr *ast.CallExpr, params []*Param) *errchain.Pl
 			varbParam = true
 		}
 	}
+	if len(expr.Param) > len(params) && !varbParam {
+		return NewRunError(ctx, fmt.Sprintf(
+			"too many arguments: expected at most %d, got %d", len(params), len(expr.Param)), expr.NamePos)
+	}
 	for ePIndex, p := range expr.Param {
 		if p.NodeType == ast.TypeAssignmentExpr { // named param
 			if varbParam {
